@@ -8,7 +8,7 @@ from ..ast import bind, show, walk, is_var, leaves_of, structure
 from ..fingerprint import fingerprint, diff
 
 ID = "C17"
-RULE = ("Mode G: edge plog.from_b64(x.to_b64()) (applied twice) from EVERY validated state of the raw families (incl. nodes pre-fixed by bounds, "
+RULE = ("Mode G: edge plog.from_b64(x.to_b64()) (applied twice) from EVERY validated state of the raw families and from the states returned by their negate / assume / reduce edges (incl. nodes pre-fixed by bounds, "
         "integer leaves, generated ids), of the connective families, from every configurator object, and edge "
         "ge_polyhedron_config.from_b64(P.to_b64()) from every configurator polyhedron. oracle: self-loop on the deep fingerprint (every "
         "attribute of every reachable object: classes, ids, bounds, generated flags, signs, values, defaults, prios; matrix, dtype, "
@@ -116,6 +116,36 @@ def check_plog(m, fam, k, acc):
         acc.violation(None, case, {"what": "a query answers differently after the round trip", "model": show(m), "query": o0[j][0],
                                    "before": repr(o0[j])[:600], "after": repr(o1[j])[:600]})
         return
+    # non-initial states: what assume / negate / reduce RETURN is packed as well (their bounds are numpy integers, their classes plain AtLeast)
+    first_leaf = next(iter(leaves)) if leaves else None
+    derived = []
+    try:
+        derived.append(("negate", bind(m)[0].negate()))
+        if first_leaf is not None:
+            derived.append(("assume", bind(m)[0].assume({first_leaf: leaves[first_leaf][0]})))
+            derived.append(("assume-range", bind(m)[0].assume({first_leaf: (leaves[first_leaf][0], leaves[first_leaf][1])})))
+        derived.append(("reduce", bind(m)[0].reduce()))
+    except BaseException as e:
+        acc.violation(None, case, {"what": "transformer raised", "exc": repr(e), "model": show(m)})
+        return
+    for name, d in derived:
+        if is_var(d):
+            continue
+        acc.n("transitions", 2)
+        try:
+            back_d = pg.from_b64(d.to_b64())
+        except BaseException as e:
+            acc.violation(None, dict(case, edge=name), {"what": f"to_b64 / from_b64 of the {name}() result raised", "exc": repr(e), "model": show(m)})
+            return
+        fd0, fd1 = fingerprint(d), fingerprint(back_d)
+        if fd0 != fd1 or d.to_text() != back_d.to_text():
+            acc.violation(None, dict(case, edge=name), {"what": f"unpacked {name}() result is not structurally identical", "model": show(m), "diff": diff(fd0, fd1)})
+            return
+        if first_leaf is not None:
+            a0 = {i: lo for i, (lo, hi) in leaves.items()}
+            if tuple(map(int, d.evaluate(a0).as_tuple())) != tuple(map(int, back_d.evaluate(a0).as_tuple())):
+                acc.violation(None, dict(case, edge=name), {"what": f"unpacked {name}() result evaluates differently", "model": show(m)})
+                return
     if any(c[0] in ('N', 'C') for c in (m[4] if m[0] == 'N' else m[3])):
         acc.nontriv(m)
     if acc.counts["states_checked"] % 6000 == 1:
